@@ -7,7 +7,10 @@ CONSTANTS NItems,    \* number of work items (1..NItems)
           K1, K2, K3, K4, \* kind of item 1..4: "worker" | "task" | "micro" (which counter it uses)
           HasStopFn, \* module has a stop function
           ManualCtrl, \* stopAllTasks sets ctrlFuncRunning before the stop flag (TRUE in the code)
-          StopAfterWork \* TRUE: the stop is requested only after every item has finished (C06 scripts)
+          StopAfterWork, \* TRUE: the stop is requested only after every item has finished (C06 scripts)
+          LateTail   \* the goroutine that ran the previous control function (the start routine) signals its end only now:
+                     \* "none" (it has long finished), "own" (it ends its own invocation only: repaired tree),
+                     \* "clears" (it clears the flag whoever set it: finding F-C01-2)
 
 Items == 1..NItems
 Kind == [i \in Items |-> CASE i = 1 -> K1 [] i = 2 -> K2 [] i = 3 -> K3 [] OTHER -> K4]
@@ -19,9 +22,10 @@ VARIABLES ipc,       \* item pc: "idle","counted","running","returned","decremen
           fpc,       \* stop function goroutine pc
           status,    \* "online","stopping","offline"
           sawCancelAtStopFn, \* ghost: ctx state when the stop fn began
-          lateItems  \* ghost: items that were started after stop began
+          lateItems, \* ghost: items that were started after stop began
+          tpc        \* pc of the late tail of the previous control function: "pending", "chk1".."chk5", "cas", "closing", "done"
 
-vars == <<ipc, cnt, stopFlag, ctrl, stopCompleted, closed, ctxCancelled, spc, fpc, status, sawCancelAtStopFn, lateItems>>
+vars == <<ipc, cnt, stopFlag, ctrl, stopCompleted, closed, ctxCancelled, spc, fpc, status, sawCancelAtStopFn, lateItems, tpc>>
 
 Kinds == {"worker", "task", "micro"}
 
@@ -30,21 +34,22 @@ Init == /\ ipc = [i \in Items |-> "idle"]
         /\ stopFlag = FALSE /\ ctrl = FALSE /\ stopCompleted = TRUE /\ closed = FALSE /\ ctxCancelled = FALSE
         /\ spc = "idle" /\ fpc = "idle" /\ status = "online"
         /\ sawCancelAtStopFn = TRUE /\ lateItems = {}
+        /\ tpc = IF LateTail = "none" THEN "done" ELSE "pending"
 
 \* ---- work items ----
 Count(i) == /\ ipc[i] = "idle"
             /\ cnt' = [cnt EXCEPT ![Kind[i]] = @ + 1]
             /\ ipc' = [ipc EXCEPT ![i] = "running"]
             /\ lateItems' = IF spc # "idle" THEN lateItems \cup {i} ELSE lateItems
-            /\ UNCHANGED <<stopFlag, ctrl, stopCompleted, closed, ctxCancelled, spc, fpc, status, sawCancelAtStopFn>>
+            /\ UNCHANGED <<stopFlag, ctrl, stopCompleted, closed, ctxCancelled, spc, fpc, status, sawCancelAtStopFn, tpc>>
 \* the work function returns (only after cancellation, or any time: both allowed)
 Return(i) == /\ ipc[i] = "running"
              /\ ipc' = [ipc EXCEPT ![i] = "returned"]
-             /\ UNCHANGED <<cnt, stopFlag, ctrl, stopCompleted, closed, ctxCancelled, spc, fpc, status, sawCancelAtStopFn, lateItems>>
+             /\ UNCHANGED <<cnt, stopFlag, ctrl, stopCompleted, closed, ctxCancelled, spc, fpc, status, sawCancelAtStopFn, lateItems, tpc>>
 Dec(i) == /\ ipc[i] = "returned"
           /\ cnt' = [cnt EXCEPT ![Kind[i]] = @ - 1]
           /\ ipc' = [ipc EXCEPT ![i] = "chk1"]
-          /\ UNCHANGED <<stopFlag, ctrl, stopCompleted, closed, ctxCancelled, spc, fpc, status, sawCancelAtStopFn, lateItems>>
+          /\ UNCHANGED <<stopFlag, ctrl, stopCompleted, closed, ctxCancelled, spc, fpc, status, sawCancelAtStopFn, lateItems, tpc>>
 
 \* checkIfStopComplete: five separate reads, then CAS + close. who \in Items \cup {"fn"}
 ChkStep(pc, setpc(_)) ==
@@ -56,61 +61,79 @@ ChkStep(pc, setpc(_)) ==
 
 ItemChk(i) == /\ ipc[i] \in {"chk1", "chk2", "chk3", "chk4", "chk5"}
               /\ ChkStep(ipc[i], LAMBDA v : ipc' = [ipc EXCEPT ![i] = v])
-              /\ UNCHANGED <<cnt, stopFlag, ctrl, stopCompleted, closed, ctxCancelled, spc, fpc, status, sawCancelAtStopFn, lateItems>>
+              /\ UNCHANGED <<cnt, stopFlag, ctrl, stopCompleted, closed, ctxCancelled, spc, fpc, status, sawCancelAtStopFn, lateItems, tpc>>
 ItemCas(i) == /\ ipc[i] = "cas"
               /\ IF ~stopCompleted THEN /\ stopCompleted' = TRUE /\ ipc' = [ipc EXCEPT ![i] = "closing"]
                                    ELSE /\ UNCHANGED stopCompleted /\ ipc' = [ipc EXCEPT ![i] = "done"]
-              /\ UNCHANGED <<cnt, stopFlag, ctrl, closed, ctxCancelled, spc, fpc, status, sawCancelAtStopFn, lateItems>>
+              /\ UNCHANGED <<cnt, stopFlag, ctrl, closed, ctxCancelled, spc, fpc, status, sawCancelAtStopFn, lateItems, tpc>>
 ItemClose(i) == /\ ipc[i] = "closing"
                 /\ Assert(~closed, "double close of stopComplete")
                 /\ closed' = TRUE /\ ipc' = [ipc EXCEPT ![i] = "done"]
-                /\ UNCHANGED <<cnt, stopFlag, ctrl, stopCompleted, ctxCancelled, spc, fpc, status, sawCancelAtStopFn, lateItems>>
+                /\ UNCHANGED <<cnt, stopFlag, ctrl, stopCompleted, ctxCancelled, spc, fpc, status, sawCancelAtStopFn, lateItems, tpc>>
 
 \* ---- stopper: Module.stop + stopAllTasks ----
 StopBegin == /\ spc = "idle" /\ status = "online"
              /\ StopAfterWork => \A i \in Items : ipc[i] = "done"
              /\ stopCompleted' = FALSE /\ closed' = FALSE /\ status' = "stopping"
              /\ spc' = IF ManualCtrl THEN "s1" ELSE "s2"
-             /\ UNCHANGED <<ipc, cnt, stopFlag, ctrl, ctxCancelled, fpc, sawCancelAtStopFn, lateItems>>
+             /\ UNCHANGED <<ipc, cnt, stopFlag, ctrl, ctxCancelled, fpc, sawCancelAtStopFn, lateItems, tpc>>
 S1 == /\ spc = "s1" /\ ctrl' = TRUE /\ spc' = "s2"
-      /\ UNCHANGED <<ipc, cnt, stopFlag, stopCompleted, closed, ctxCancelled, fpc, status, sawCancelAtStopFn, lateItems>>
+      /\ UNCHANGED <<ipc, cnt, stopFlag, stopCompleted, closed, ctxCancelled, fpc, status, sawCancelAtStopFn, lateItems, tpc>>
 S2 == /\ spc = "s2" /\ stopFlag' = TRUE /\ spc' = "s3"
-      /\ UNCHANGED <<ipc, cnt, ctrl, stopCompleted, closed, ctxCancelled, fpc, status, sawCancelAtStopFn, lateItems>>
+      /\ UNCHANGED <<ipc, cnt, ctrl, stopCompleted, closed, ctxCancelled, fpc, status, sawCancelAtStopFn, lateItems, tpc>>
 S3 == /\ spc = "s3" /\ ctxCancelled' = TRUE /\ spc' = "s4"
-      /\ UNCHANGED <<ipc, cnt, stopFlag, ctrl, stopCompleted, closed, fpc, status, sawCancelAtStopFn, lateItems>>
+      /\ UNCHANGED <<ipc, cnt, stopFlag, ctrl, stopCompleted, closed, fpc, status, sawCancelAtStopFn, lateItems, tpc>>
 \* startCtrlFn
 S4 == /\ spc = "s4"
       /\ IF HasStopFn THEN /\ ctrl' = TRUE /\ fpc' = "run" /\ sawCancelAtStopFn' = ctxCancelled
                       ELSE /\ ctrl' = FALSE /\ fpc' = "chk1" /\ UNCHANGED sawCancelAtStopFn
       /\ spc' = IF HasStopFn THEN "s5" ELSE "s4b"
-      /\ UNCHANGED <<ipc, cnt, stopFlag, stopCompleted, closed, ctxCancelled, status, lateItems>>
+      /\ UNCHANGED <<ipc, cnt, stopFlag, stopCompleted, closed, ctxCancelled, status, lateItems, tpc>>
 \* without stop fn the check runs synchronously in the stopper
 S4b == /\ spc = "s4b" /\ fpc \in {"done"} /\ spc' = "s5"
-       /\ UNCHANGED <<ipc, cnt, stopFlag, ctrl, stopCompleted, closed, ctxCancelled, fpc, status, sawCancelAtStopFn, lateItems>>
+       /\ UNCHANGED <<ipc, cnt, stopFlag, ctrl, stopCompleted, closed, ctxCancelled, fpc, status, sawCancelAtStopFn, lateItems, tpc>>
 S5 == /\ spc = "s5" /\ closed      \* wait for stopComplete (timeout not modelled: work returns within the limit)
       /\ spc' = "s7"
-      /\ UNCHANGED <<ipc, cnt, stopFlag, ctrl, stopCompleted, closed, ctxCancelled, fpc, status, sawCancelAtStopFn, lateItems>>
+      /\ UNCHANGED <<ipc, cnt, stopFlag, ctrl, stopCompleted, closed, ctxCancelled, fpc, status, sawCancelAtStopFn, lateItems, tpc>>
 S7 == /\ spc = "s7" /\ status' = "offline" /\ spc' = "end"
-      /\ UNCHANGED <<ipc, cnt, stopFlag, ctrl, stopCompleted, closed, ctxCancelled, fpc, sawCancelAtStopFn, lateItems>>
+      /\ UNCHANGED <<ipc, cnt, stopFlag, ctrl, stopCompleted, closed, ctxCancelled, fpc, sawCancelAtStopFn, lateItems, tpc>>
 
 \* ---- stop function goroutine ----
 FnReturn == /\ fpc = "run" /\ fpc' = "unset"
-            /\ UNCHANGED <<ipc, cnt, stopFlag, ctrl, stopCompleted, closed, ctxCancelled, spc, status, sawCancelAtStopFn, lateItems>>
+            /\ UNCHANGED <<ipc, cnt, stopFlag, ctrl, stopCompleted, closed, ctxCancelled, spc, status, sawCancelAtStopFn, lateItems, tpc>>
 FnUnset == /\ fpc = "unset" /\ ctrl' = FALSE /\ fpc' = "chk1"
-           /\ UNCHANGED <<ipc, cnt, stopFlag, stopCompleted, closed, ctxCancelled, spc, status, sawCancelAtStopFn, lateItems>>
+           /\ UNCHANGED <<ipc, cnt, stopFlag, stopCompleted, closed, ctxCancelled, spc, status, sawCancelAtStopFn, lateItems, tpc>>
 FnChk == /\ fpc \in {"chk1", "chk2", "chk3", "chk4", "chk5"}
          /\ ChkStep(fpc, LAMBDA v : fpc' = v)
-         /\ UNCHANGED <<ipc, cnt, stopFlag, ctrl, stopCompleted, closed, ctxCancelled, spc, status, sawCancelAtStopFn, lateItems>>
+         /\ UNCHANGED <<ipc, cnt, stopFlag, ctrl, stopCompleted, closed, ctxCancelled, spc, status, sawCancelAtStopFn, lateItems, tpc>>
 FnCas == /\ fpc = "cas"
          /\ IF ~stopCompleted THEN /\ stopCompleted' = TRUE /\ fpc' = "closing"
                               ELSE /\ UNCHANGED stopCompleted /\ fpc' = "done"
-         /\ UNCHANGED <<ipc, cnt, stopFlag, ctrl, closed, ctxCancelled, spc, status, sawCancelAtStopFn, lateItems>>
+         /\ UNCHANGED <<ipc, cnt, stopFlag, ctrl, closed, ctxCancelled, spc, status, sawCancelAtStopFn, lateItems, tpc>>
 FnClose == /\ fpc = "closing"
            /\ Assert(~closed, "double close of stopComplete")
            /\ closed' = TRUE /\ fpc' = "done"
-           /\ UNCHANGED <<ipc, cnt, stopFlag, ctrl, stopCompleted, ctxCancelled, spc, status, sawCancelAtStopFn, lateItems>>
+           /\ UNCHANGED <<ipc, cnt, stopFlag, ctrl, stopCompleted, ctxCancelled, spc, status, sawCancelAtStopFn, lateItems, tpc>>
 
-Next == \/ StopBegin \/ S1 \/ S2 \/ S3 \/ S4 \/ S4b \/ S5 \/ S7
+\* ---- late tail of the previous control function (worker.go startCtrlFn, deferred part) ----
+TailEnd == /\ tpc = "pending"
+           /\ ctrl' = IF LateTail = "clears" THEN FALSE ELSE ctrl
+           /\ tpc' = "chk1"
+           /\ UNCHANGED <<ipc, cnt, stopFlag, stopCompleted, closed, ctxCancelled, spc, fpc, status, sawCancelAtStopFn, lateItems>>
+TailChk == /\ tpc \in {"chk1", "chk2", "chk3", "chk4", "chk5"}
+           /\ ChkStep(tpc, LAMBDA v : tpc' = v)
+           /\ UNCHANGED <<ipc, cnt, stopFlag, ctrl, stopCompleted, closed, ctxCancelled, spc, fpc, status, sawCancelAtStopFn, lateItems>>
+TailCas == /\ tpc = "cas"
+           /\ IF ~stopCompleted THEN /\ stopCompleted' = TRUE /\ tpc' = "closing"
+                                ELSE /\ UNCHANGED stopCompleted /\ tpc' = "done"
+           /\ UNCHANGED <<ipc, cnt, stopFlag, ctrl, closed, ctxCancelled, spc, fpc, status, sawCancelAtStopFn, lateItems>>
+TailClose == /\ tpc = "closing"
+             /\ Assert(~closed, "double close of stopComplete")
+             /\ closed' = TRUE /\ tpc' = "done"
+             /\ UNCHANGED <<ipc, cnt, stopFlag, ctrl, stopCompleted, ctxCancelled, spc, fpc, status, sawCancelAtStopFn, lateItems>>
+
+Next == \/ TailEnd \/ TailChk \/ TailCas \/ TailClose
+        \/ StopBegin \/ S1 \/ S2 \/ S3 \/ S4 \/ S4b \/ S5 \/ S7
         \/ FnReturn \/ FnUnset \/ FnChk \/ FnCas \/ FnClose
         \/ \E i \in Items : Count(i) \/ Return(i) \/ Dec(i) \/ ItemChk(i) \/ ItemCas(i) \/ ItemClose(i)
 
@@ -124,7 +147,7 @@ OfflineAfterWork == status = "offline" =>
         /\ fpc \notin {"run"}
         /\ \A i \in Items : (i \notin lateItems /\ ipc[i] # "idle") => ipc[i] \notin {"running"}
 \* once everything has returned and finished its bookkeeping, completion is signalled (no lost wake-up)
-NoLostSignal == (spc = "s5" /\ fpc = "done" /\ \A i \in Items : ipc[i] \in {"idle", "done"}) => closed
+NoLostSignal == (spc = "s5" /\ fpc = "done" /\ tpc \in {"pending", "done"} /\ \A i \in Items : ipc[i] \in {"idle", "done"}) => closed
 CountersNonNeg == \A k \in Kinds : cnt[k] >= 0
 \* liveness: the stop completes
 StopCompletes == (spc = "s1" \/ spc = "s2") ~> (status = "offline")
